@@ -905,35 +905,146 @@ def _percentile(vals, pct):
     return v[f] * (c - k) + v[c] * (k - f)
 
 
+# positions inside the 'Heating' / 'Cooling' groups of the ASHRAE climatic design table (2009, 2017 and
+# 2021 handbooks share them; 2021 only appends WSF to the heating group) - written here independently of
+# DesignDay.HEATING_KEYS / COOLING_KEYS
+_H_POS = {'Month': 0, 'DB996': 1, 'DB990': 2, 'WS_DB996': 13, 'WD_DB996': 14}
+_C_POS = {'Month': 0, 'DBR': 1, 'DB004': 2, 'WB_DB004': 3, 'DB010': 4, 'WB_DB010': 5, 'WS_DB004': 14,
+          'WD_DB004': 15}
+
+
+def _group(tokens, word, pos):
+    """The stated values of one group ('Heating' / 'Cooling') of a raw design-conditions record."""
+    toks = [t.strip() for t in tokens]
+    if word not in toks:
+        return None
+    i = toks.index(word)
+    try:
+        return {k: float(toks[i + 1 + j]) for k, j in pos.items()}
+    except (ValueError, IndexError):
+        return None
+
+
+def _raw_header(src, fn):
+    """(heating values, cooling values, pressure, monthly taub, monthly taud) read from the raw file with
+    the stdlib only."""
+    path = os.path.join(_assets(), src, fn)
+    with open(path, encoding='utf-8', errors='ignore') as f:
+        lines = f.read().splitlines()
+    if src == 'epw':
+        toks = lines[1].split(',')
+        hv, cv = _group(toks, 'Heating', _H_POS), _group(toks, 'Cooling', _C_POS)
+        press = [float(ln.split(',')[9]) for ln in lines[8:] if ln.count(',') > 21]
+        avg = sum(press) / len(press)
+        return hv, cv, (None if avg == 999999 else avg), None, None
+    hv = cv = tb = td = None
+    pr = None
+    for ln in lines:
+        toks = ln.split('\t')
+        st = [t.strip() for t in toks]
+        if 'Heating' in st and hv is None:
+            hv = _group(toks, 'Heating', _H_POS)
+        if 'Cooling' in st and cv is None:
+            cv = _group(toks, 'Cooling', _C_POS)
+        if 'Standard Pressure at Elevation' in ln and pr is None:
+            m = re.search(r'(\d+)\s*Pa', ln)
+            pr = float(m.group(1)) if m else None
+        if 'taub (beam)' in st and tb is None:
+            vals = st[st.index('taub (beam)') + 1:]
+            tb = [None if v in ('N_A', 'N') else float(v) for v in vals if v != ''][:12]
+        if 'taud (diffuse)' in st and td is None:
+            vals = st[st.index('taud (diffuse)') + 1:]
+            td = [None if v in ('N_A', 'N') else float(v) for v in vals if v != ''][:12]
+    return hv, cv, pr, tb, td
+
+
 def _check_header_days(inp):
+    """The four header-derived days of an EPW / STAT file against the values stated in the raw header:
+    dry bulb, range, coincident wet bulb, wind speed and direction, month (21st), pressure (EPW: mean of the
+    hourly station pressure; STAT: standard pressure at elevation; 101325 when absent), sky (clear sky with
+    clearness 0 for heating; for cooling the month's taub/taud of the STAT file where present, otherwise
+    clear sky with clearness 1), flags off, location of the file."""
     from ladybug.stat import STAT
+    from ladybug.designday import ASHRAEClearSky, ASHRAETau
     src, fn = inp['source'], inp['file']
     sig = {'source': src, 'file': fn}
+    hv, cv, press, tb, td = _raw_header(src, fn)
     if src == 'epw':
-        obj = _epw(fn)
-        hd, cd = obj.heating_design_condition_dictionary, obj.cooling_design_condition_dictionary
-    else:
-        obj = STAT(os.path.join(_assets(), 'stat', fn))
-        hd, cd = obj._winter_des_day_dict, obj._summer_des_day_dict
-    days = [('h996', obj.annual_heating_design_day_996, hd, 'DB996', 'DB996', 'WS_DB996', 'WD_DB996', None),
-            ('h990', obj.annual_heating_design_day_990, hd, 'DB990', 'DB990', 'WS_DB996', 'WD_DB996', None),
-            ('c004', obj.annual_cooling_design_day_004, cd, 'DB004', 'WB_DB004', 'WS_DB004', 'WD_DB004', 'DBR'),
-            ('c010', obj.annual_cooling_design_day_010, cd, 'DB010', 'WB_DB010', 'WS_DB004', 'WD_DB004', 'DBR')]
-    for tag, dd, dct, dbk, wbk, wsk, wdk, rk in days:
-        if not dct:
+        with open(os.path.join(_assets(), src, fn), encoding='utf-8', errors='ignore') as f:
+            f.readline()
+            m = re.search(r'(20\d\d)', f.readline().split(',Heating')[0])
+        sig['handbook'] = m.group(1) if m else 'none'
+    obj = _epw(fn) if src == 'epw' else STAT(os.path.join(_assets(), 'stat', fn))
+    want_p = 101325 if press is None else press
+    plan = [('h996', 'annual_heating_design_day_996', hv, 'DB996', 'DB996', 'WS_DB996', 'WD_DB996', None, 'WinterDesignDay'),
+            ('h990', 'annual_heating_design_day_990', hv, 'DB990', 'DB990', 'WS_DB996', 'WD_DB996', None, 'WinterDesignDay'),
+            ('c004', 'annual_cooling_design_day_004', cv, 'DB004', 'WB_DB004', 'WS_DB004', 'WD_DB004', 'DBR', 'SummerDesignDay'),
+            ('c010', 'annual_cooling_design_day_010', cv, 'DB010', 'WB_DB010', 'WS_DB004', 'WD_DB004', 'DBR', 'SummerDesignDay')]
+    got_days = {}
+    for tag, attr, vals, dbk, wbk, wsk, wdk, rk, dtype in plan:
+        s = dict(sig, day=tag)
+        try:
+            dd = getattr(obj, attr)
+        except Exception as e:
+            return {'required': attr, 'observed': 'raises %s: %s' % (type(e).__name__, e),
+                    'sig': dict(s, clause='raises', raises=type(e).__name__)}
+        got_days[tag] = dd
+        if vals is None:
             if dd is not None:
-                return {'required': 'no design day without header data', 'observed': str(dd), 'sig': dict(sig, day=tag)}
+                return {'required': 'no %s without stated design conditions' % attr, 'observed': str(dd),
+                        'sig': dict(s, clause='absent')}
             continue
-        want = (float(dct[dbk]), float(dct[rk]) if rk else 0.0, 'Wetbulb', float(dct[wbk]), float(dct[wsk]),
-                float(dct[wdk]), int(dct['Month']), 21)
-        got = (dd.dry_bulb_condition.dry_bulb_max, dd.dry_bulb_condition.dry_bulb_range,
-               dd.humidity_condition.humidity_type, dd.humidity_condition.humidity_value,
-               dd.wind_condition.wind_speed, dd.wind_condition.wind_direction, dd.sky_condition.date.month,
-               dd.sky_condition.date.day)
-        if want != got:
-            return {'required': want, 'observed': got, 'sig': dict(sig, day=tag)}
+        if dd is None:
+            return {'required': '%s from the stated design conditions' % attr, 'observed': None,
+                    'sig': dict(s, clause='missing')}
+        h = dd.humidity_condition
+        checks = [
+            ('dry_bulb', vals[dbk], dd.dry_bulb_condition.dry_bulb_max),
+            ('range', vals[rk] if rk else 0.0, dd.dry_bulb_condition.dry_bulb_range),
+            ('humidity_type', 'Wetbulb', h.humidity_type),
+            ('wet_bulb', vals[wbk], h.humidity_value),
+            ('wind_speed', vals[wsk], dd.wind_condition.wind_speed),
+            ('wind_direction', vals[wdk], dd.wind_condition.wind_direction),
+            ('month', int(vals['Month']), dd.sky_condition.date.month),
+            ('day', 21, dd.sky_condition.date.day),
+            ('day_type', dtype, dd.day_type),
+            ('flags', (False, False, False), (h.rain, h.snow_on_ground, dd.sky_condition.daylight_savings)),
+        ]
+        for clause, want, got in checks:
+            if want != got:
+                return {'required': '%s %s = %r (stated in the header)' % (attr, clause, want), 'observed': got,
+                        'sig': dict(s, clause=clause)}
+        gp = h.barometric_pressure
+        if abs(gp - want_p) > 1e-9 * want_p:
+            return {'required': '%s pressure = %r (%s)' % (
+                attr, want_p, 'mean hourly station pressure' if src == 'epw' else 'standard pressure at elevation'),
+                'observed': gp, 'sig': dict(s, clause='pressure')}
+        sc = dd.sky_condition
+        if dtype == 'WinterDesignDay':
+            want_sky = ('ASHRAEClearSky', 0)
+        else:
+            m = int(vals['Month'])
+            if tb and td and len(tb) >= m and len(td) >= m and tb[m - 1] is not None and td[m - 1] is not None:
+                want_sky = ('ASHRAETau', tb[m - 1], td[m - 1], False)
+            else:
+                want_sky = ('ASHRAEClearSky', 1)
+        if type(sc) is ASHRAEClearSky:
+            got_sky = ('ASHRAEClearSky', sc.clearness)
+        elif type(sc) is ASHRAETau:
+            got_sky = ('ASHRAETau', sc.tau_b, sc.tau_d, sc.use_2017)
+        else:
+            got_sky = (type(sc).__name__,)
+        if want_sky != got_sky:
+            return {'required': '%s sky = %r' % (attr, want_sky), 'observed': got_sky, 'sig': dict(s, clause='sky')}
         if dd.location != obj.location:
-            return {'required': 'location of the file', 'observed': str(dd.location), 'sig': dict(sig, day=tag, clause='location')}
+            return {'required': 'location of the file', 'observed': str(dd.location), 'sig': dict(s, clause='location')}
+    if src == 'epw' and hv is not None and cv is not None:
+        # the public selector hands out the same four days
+        for pct, ht, ct in ((0.4, 'h996', 'c004'), (1, 'h990', 'c010')):
+            bh, bc = obj.best_available_design_days(pct)
+            if bh != got_days[ht] or bc != got_days[ct]:
+                return {'required': 'best_available_design_days(%s) = the header days' % pct,
+                        'observed': (str(bh), str(bc)), 'sig': dict(sig, clause='best_available', percentile=pct)}
     return None
 
 
